@@ -19,6 +19,7 @@ import (
 
 	"github.com/free5gc/chf/cdr/asn"
 	"verifharness/h"
+	"verifharness/oracle"
 )
 
 type Case struct {
@@ -92,7 +93,9 @@ func genSpec(t *rapid.T) TypeSpec {
 	}
 }
 
-func genCase(t *rapid.T) Case { return genCaseOf(t, genSpec(t), rapid.IntRange(0, 7).Draw(t, "errcls") == 0) }
+func genCase(t *rapid.T) Case {
+	return genCaseOf(t, genSpec(t), rapid.IntRange(0, 7).Draw(t, "errcls") == 0)
+}
 func genValidCase(t *rapid.T) Case {
 	return genCaseOf(t, genSpec(t), false)
 }
@@ -159,9 +162,9 @@ func judgeC04(c Case) *h.Verdict {
 	if gerr != nil {
 		return v.Failf("unexpected-error", "marshal returned error %q for a well-formed value; reference encoding %x", gerr, trunc(ref))
 	}
-	if _, werr := walkTLV(got); werr != nil {
-		te := werr.(*tlvErr)
-		return v.Failf("malformed/"+te.what, "output is not a well-formed BER element: %v; got %x, reference %x", werr, trunc(got), trunc(ref))
+	if _, werr := oracle.WalkTLV(got); werr != nil {
+		te := werr.(*oracle.TLVErr)
+		return v.Failf("malformed/"+te.What, "output is not a well-formed BER element: %v; got %x, reference %x", werr, trunc(got), trunc(ref))
 	}
 	if !bytes.Equal(got, ref) {
 		off := 0
@@ -898,13 +901,13 @@ func TestSelfReferenceEncoder(t *testing.T) {
 		if err != nil || hex.EncodeToString(got) != tc.out {
 			t.Errorf("reference encoder: %#v (%q): got %x err %v, want %s", tc.in, tc.param, got, err, tc.out)
 		}
-		if _, err := walkTLV(got); err != nil {
+		if _, err := oracle.WalkTLV(got); err != nil {
 			t.Errorf("TLV walker rejects %s: %v", tc.out, err)
 		}
 	}
 	for _, bad := range []string{"02020001", "0202ff80", "0101 01", "03020800", "1f00", "0c8101 61", "30038001", "9f80200100", "058100"} {
 		b, _ := hex.DecodeString(strings.ReplaceAll(bad, " ", ""))
-		if _, err := walkTLV(b); err == nil {
+		if _, err := oracle.WalkTLV(b); err == nil {
 			t.Errorf("TLV walker accepts malformed %s", bad)
 		}
 	}
